@@ -582,6 +582,75 @@ theorem TwinInv.init (cfg : MgrCfg) (tf : Option String) (cs : List (Candle F)) 
       exact ⟨inv.keysNodup, inv.mgrNodup, inv.others,
         ⟨hi, dm, hl, h2, inv.default, ⟨h1.symm, h3.symm, rfl, StripEq.refl _ _⟩⟩⟩
 
+/-! ### `add_indicator` / `remove_indicator` aimed at other members -/
+
+/-- attaching ANOTHER member (different name, names within `N`) keeps the twin in step -/
+theorem TwinInv.attach_other {nm : String} {s : IndState F} {H H' : Hexital F} (inv : TwinInv N nm s H)
+    (m : Member F) (hn : m.tree.name ≠ nm) (hN : ∀ k, k ∈ m.tree.allNames → k ∈ N)
+    (ha : H.attach m = .ok H') : TwinInv N nm s H' := by
+  obtain ⟨hi, dm, h1, h2, h3, h4⟩ := inv.member
+  have key : ∀ (k : String) (ms : List (String × Manager F)), (ms.map (·.1)).Nodup →
+      dlookup defaultKey ms = some dm →
+      TwinInv N nm s (⟨H.cfg, H.tfName, ms, dset m.tree.name ⟨m.tree, k, 0⟩ H.indicators⟩ : Hexital F) := by
+    intro k ms hms hdef
+    refine ⟨nodup_keys_dset _ _ _ inv.keysNodup, hms, ?_, ⟨hi, dm, ?_, h2, hdef, h4⟩⟩
+    · intro n hi2 hn2 hl
+      dsimp only at hl
+      rw [dlookup_dset] at hl
+      by_cases e : m.tree.name = n
+      · simp only [e, if_true] at hl; cases hl; exact hN
+      · simp only [e, if_false] at hl
+        exact inv.others n hi2 hn2 hl
+    · show dlookup nm (dset m.tree.name _ H.indicators) = some hi
+      rw [dlookup_dset]; simp only [hn, if_false]; exact h1
+  unfold Hexital.attach at ha
+  split at ha
+  · cases ha; exact key _ _ inv.mgrNodup h3
+  · rename_i tf htf
+    split at ha
+    · cases ha; exact key _ _ inv.mgrNodup h3
+    · rename_i hdh
+      obtain ⟨dm', _, ha⟩ := bind_ok ha
+      obtain ⟨nmgr, _, ha⟩ := bind_ok ha
+      cases ha
+      have htfne : ¬ tf = defaultKey := by
+        intro e; apply hdh; rw [e]; simp [dhas, h3]
+      refine key _ _ (nodup_keys_dset _ _ _ inv.mgrNodup) ?_
+      rw [dlookup_dset]; simp only [htfne, if_false]; exact h3
+
+theorem TwinInv.addIndicators {nm : String} {s : IndState F} {H H' : Hexital F} (inv : TwinInv N nm s H)
+    (ms : List (Member F))
+    (hms : ∀ m, m ∈ Hexital.dedupe ms → m.tree.name ≠ nm ∧ ∀ k, k ∈ m.tree.allNames → k ∈ N)
+    (hop : H.addIndicators ms = .ok H') : TwinInv N nm s H' := by
+  unfold Hexital.addIndicators at hop
+  generalize Hexital.dedupe ms = l at hms hop
+  induction l generalizing H with
+  | nil => simp [List.foldlM, pure, Except.pure] at hop; subst hop; exact inv
+  | cons m r ih =>
+    rw [List.foldlM_cons] at hop
+    obtain ⟨H1, e1, e2⟩ := bind_ok hop
+    exact ih (inv.attach_other m (hms m (by simp)).1 (hms m (by simp)).2 e1)
+      (fun m' hm' => hms m' (List.mem_cons_of_mem _ hm')) e2
+
+omit [PyF F] in
+/-- dropping the registration of ANOTHER member -/
+theorem TwinInv.erase_other {nm : String} {s : IndState F} {H : Hexital F} (inv : TwinInv N nm s H)
+    (b : String) (hb : b ≠ nm) : TwinInv N nm s { H with indicators := derase b H.indicators } := by
+  obtain ⟨hi, dm, h1, h2, h3, h4⟩ := inv.member
+  refine ⟨?_, inv.mgrNodup, ?_, ⟨hi, dm, ?_, h2, h3, h4⟩⟩
+  · show ((derase b H.indicators).map (·.1)).Nodup
+    rw [derase_eq_filter]
+    exact inv.keysNodup.sublist ((List.filter_sublist).map _)
+  · intro n hi2 hn2 hl
+    change dlookup n (derase b H.indicators) = some hi2 at hl
+    rw [dlookup_derase] at hl
+    by_cases e : b = n
+    · simp [e] at hl
+    · simp only [e, if_false] at hl
+      exact inv.others n hi2 hn2 hl
+  · show dlookup nm (derase b H.indicators) = some hi
+    rw [dlookup_derase]; simp only [hb, if_false]; exact h1
+
 /-! ### programs of façade operations -/
 
 /-- the façade operations a Hexital is driven with after construction -/
@@ -591,6 +660,8 @@ inductive TwinOp (F : Type)
   | purge (name : Option String)
   | recalculate (name : Option String)
   | append (new : List (Candle F))
+  | add (members : List (Member F))
+  | remove (name : Option String)
 
 def TwinOp.runHex (h : Hexital F) : TwinOp F → PyM (Hexital F)
   | .calculate n => h.calculate n
@@ -598,20 +669,42 @@ def TwinOp.runHex (h : Hexital F) : TwinOp F → PyM (Hexital F)
   | .purge n => h.purge n
   | .recalculate n => h.recalculate n
   | .append new => h.append new
+  | .add ms => h.addIndicators ms
+  | .remove n => h.removeIndicator n
 
 /-- what the standalone twin of member `nm` does meanwhile: the same operation when it is aimed at
-everything (`None`) or at `nm`, nothing when it is aimed at another member; every append -/
+everything (`None`) or at `nm`, nothing when it is aimed at another member; every append; nothing
+when other members are added or removed (`remove_indicator(None)` only purges) -/
 def TwinOp.runInd (nm : String) (s : IndState F) : TwinOp F → PyM (IndState F)
   | .calculate n => if n.isNone || n == some nm then s.calculate else pure s
   | .calculateIndex n i => if n.isNone || n == some nm then s.calculateIndex i none else pure s
   | .purge n => if n.isNone || n == some nm then pure s.purge else pure s
   | .recalculate n => if n.isNone || n == some nm then s.recalculate else pure s
   | .append new => s.append new
+  | .add _ => pure s
+  | .remove n => if n.isNone || n == some nm then pure s.purge else pure s
+
+/-- side conditions of the operations that change the member set: added members have other names and
+write under `N` only; the member `nm` itself is not removed -/
+def TwinOp.OK (N : List String) (nm : String) : TwinOp F → Prop
+  | .add ms => ∀ m, m ∈ Hexital.dedupe ms → m.tree.name ≠ nm ∧ ∀ k, k ∈ m.tree.allNames → k ∈ N
+  | .remove (some b) => b ≠ nm
+  | _ => True
 
 theorem TwinInv.step {nm : String} {s : IndState F} {H H' : Hexital F} (inv : TwinInv N nm s H)
-    (hok : TreeOK N s.tree) (op : TwinOp F) (hop : op.runHex H = .ok H') :
+    (hok : TreeOK N s.tree) (op : TwinOp F) (hopok : op.OK N nm) (hop : op.runHex H = .ok H') :
     ∃ s', op.runInd nm s = .ok s' ∧ s'.tree = s.tree ∧ TwinInv N nm s' H' := by
   cases op with
+  | add ms => exact ⟨s, rfl, rfl, inv.addIndicators ms hopok hop⟩
+  | remove n =>
+    unfold TwinOp.runHex Hexital.removeIndicator at hop
+    obtain ⟨H1, e1, e2⟩ := bind_ok hop
+    obtain ⟨s1, hs1, ht1, inv1⟩ := inv.forEach hok n TwinStep.purge e1
+    cases n with
+    | none => cases e2; exact ⟨s1, hs1, ht1, inv1⟩
+    | some b =>
+      cases e2
+      exact ⟨s1, hs1, ht1, inv1.erase_other b hopok⟩
   | calculate n => exact inv.forEach hok n TwinStep.calculate hop
   | calculateIndex n i => exact inv.forEach hok n (TwinStep.calculateIndex i none) hop
   | purge n => exact inv.forEach hok n TwinStep.purge hop
@@ -633,20 +726,21 @@ theorem TwinInv.step {nm : String} {s : IndState F} {H H' : Hexital F} (inv : Tw
 
 theorem TwinInv.program {nm : String} :
     ∀ (ops : List (TwinOp F)) (s : IndState F) (H H' : Hexital F), TwinInv N nm s H → TreeOK N s.tree →
-      ops.foldlM TwinOp.runHex H = .ok H' →
+      (∀ op, op ∈ ops → op.OK N nm) → ops.foldlM TwinOp.runHex H = .ok H' →
       ∃ s', ops.foldlM (TwinOp.runInd nm) s = .ok s' ∧ s'.tree = s.tree ∧ TwinInv N nm s' H' := by
   intro ops
   induction ops with
   | nil =>
-    intro s H H' inv _ e
+    intro s H H' inv _ _ e
     simp [List.foldlM, pure, Except.pure] at e; subst e
     exact ⟨s, rfl, rfl, inv⟩
   | cons op r ih =>
-    intro s H H' inv hok e
+    intro s H H' inv hok hops e
     rw [List.foldlM_cons] at e
     obtain ⟨H1, e1, e2⟩ := bind_ok e
-    obtain ⟨s1, hs1, ht1, inv1⟩ := inv.step hok op e1
-    obtain ⟨s2, hs2, ht2, inv2⟩ := ih s1 H1 H' inv1 (ht1 ▸ hok) e2
+    obtain ⟨s1, hs1, ht1, inv1⟩ := inv.step hok op (hops op (by simp)) e1
+    obtain ⟨s2, hs2, ht2, inv2⟩ := ih s1 H1 H' inv1 (ht1 ▸ hok)
+      (fun op' h' => hops op' (List.mem_cons_of_mem _ h')) e2
     refine ⟨s2, ?_, ht2.trans ht1, inv2⟩
     rw [List.foldlM_cons, hs1]
     exact hs2
@@ -778,12 +872,13 @@ theorem Hexital.dedupe_unique (members : List (Member F)) (m m' : Member F)
 any members and drive it with any program of façade operations; for a member `a` without its own
 timeframe whose tree neither writes under nor can read the names `N` of the other members: the
 standalone indicator with `a`'s tree, constructed from the same candles and driven with the same
-program (operations aimed at other members skipped), succeeds too, and `TwinInv` holds at the end. -/
+program (operations aimed at other members skipped), succeeds too, and `TwinInv` holds at the end.
+The program may add further members (other names, writing under `N`) and remove other members. -/
 theorem member_twin (cfg : MgrCfg) (tf : Option String) (init : List (Candle F)) (members : List (Member F))
     (a : Member F) (ops : List (TwinOp F)) (H : Hexital F)
     (ha : a ∈ Hexital.dedupe members) (hatf : a.tfName = none)
     (hoth : ∀ m, m ∈ Hexital.dedupe members → m.tree.name ≠ a.tree.name → ∀ k, k ∈ m.tree.allNames → k ∈ N)
-    (hok : TreeOK N a.tree)
+    (hok : TreeOK N a.tree) (hops : ∀ op, op ∈ ops → op.OK N a.tree.name)
     (hrun : (do let h ← Hexital.init cfg tf init members
                 ops.foldlM TwinOp.runHex h) = .ok H) :
     ∃ twin, (do let s ← IndState.init a.tree cfg init
@@ -796,7 +891,7 @@ theorem member_twin (cfg : MgrCfg) (tf : Option String) (init : List (Candle F))
         subst this; exact ⟨rfl, hatf⟩,
      hoth⟩
   obtain ⟨s0, hs0, ht0, inv0⟩ := TwinInv.init cfg tf init members a.tree.name a.tree hmok ⟨a, ha, rfl⟩ H0 h0
-  obtain ⟨s1, hs1, ht1, inv1⟩ := TwinInv.program ops s0 H0 H inv0 (ht0 ▸ hok) hfold
+  obtain ⟨s1, hs1, ht1, inv1⟩ := TwinInv.program ops s0 H0 H inv0 (ht0 ▸ hok) hops hfold
   refine ⟨s1, ?_, ht1.trans ht0, inv1⟩
   rw [hs0]
   exact hs1
@@ -813,6 +908,34 @@ def runHexital (cfg : MgrCfg) (tf : Option String) (init : List (Candle F)) (mem
 def runTwin (tree : Ind F) (cfg : MgrCfg) (init : List (Candle F)) (ops : List (TwinOp F)) : PyM (IndState F) := do
   let s ← IndState.init tree cfg init
   ops.foldlM (TwinOp.runInd tree.name) s
+
+omit [PyF F] in
+/-- decidable form of `TwinOp.OK` -/
+def TwinOp.okb (N : List String) (nm : String) : TwinOp F → Bool
+  | .add ms => (Hexital.dedupe ms).all fun m => m.tree.name != nm && m.tree.allNames.all N.contains
+  | .remove (some b) => b != nm
+  | _ => true
+
+omit [PyF F] in
+theorem TwinOp.ok_of_okb {N : List String} {nm : String} (ops : List (TwinOp F))
+    (h : ops.all (TwinOp.okb N nm) = true) : ∀ op, op ∈ ops → op.OK N nm := by
+  intro op hop
+  have := List.all_eq_true.1 h op hop
+  cases op with
+  | add ms =>
+    intro m hm
+    have := List.all_eq_true.1 this m hm
+    simp only [Bool.and_eq_true, bne_iff_ne, ne_eq, List.all_eq_true, List.contains_iff_mem] at this
+    exact ⟨this.1, fun k hk => by simpa using this.2 k hk⟩
+  | remove n =>
+    cases n with
+    | none => trivial
+    | some b => simpa [TwinOp.okb, TwinOp.OK] using this
+  | calculate n => trivial
+  | calculateIndex n i => trivial
+  | purge n => trivial
+  | recalculate n => trivial
+  | append new => trivial
 
 omit [PyF F] in
 def treeOKb (N : List String) (t : Ind F) : Bool :=
